@@ -258,6 +258,13 @@ func (sc *scenario) run() {
 			default:
 				continue
 			}
+			if os.Getenv("C16_DEBUG") != "" && f[0] == "login" && strings.HasPrefix(impl, "ok") && !strings.Contains(impl, "lists=s") {
+				fmt.Fprintln(os.Stderr, "FLAKE", sc.proto, impl, w.observeOnce().String())
+				buf := make([]byte, 1<<22)
+				n := runtime.Stack(buf, true)
+				os.Stderr.Write(buf[:n])
+				os.Exit(3)
+			}
 			if impl == "hang" || impl == "panic" {
 				alive = false
 			}
